@@ -10,6 +10,17 @@ TRUST = ("TLC 1.8 and the TLA+ semantics; harness/absmap.py (gamma builds real o
          "alpha reads public props/paths/errors); the bounded universes stated in the evidence file")
 
 CHECKS = {
+ "C07": dict(
+    text="spec/D42.tla is the top-level machine over (pool of schemas, heap of caller-owned containers, history): "
+         "every public operation is an action. TLC checks the action properties SchemasAreImmutable and "
+         "OperationsArePure exhaustively for histories of <=5 (quick) / <=6 (thorough) operations, then behaviours of "
+         "the machine -- all histories of 3 (4) operations and 500 (8000) longer ones from TLC's simulator -- are "
+         "stepped through real objects: after every step every pooled real schema is compared with its creation-time "
+         "snapshot (repr, verdicts on 20 probe values, fake under fixed tapes, props) and every caller-owned container "
+         "with the caller's own copy, and the history is repeated. spec/Trace_D42.tla validates the logged steps by "
+         "taking the same D42.tla action for each, so the spec's pool evolves alongside the real one.",
+    design="7 C07", technique="TLA+ history machine, TLC action properties + simulator behaviours replayed on real "
+                              "objects; logged steps trace-validated against the same actions"),
  "C16": dict(
     text="TLC checks on spec/MC_Custom.tla, for every tree of the universe and every single wrapped position (and all "
          "positions at once), that the specification's forwarding semantics makes errors, generation and substitution "
